@@ -6,7 +6,9 @@ import ScionVerif.Model.Token
 cfg                                             -> cfg <alg,..> <required,..> <leeway> <rejectIn> <exp> <nbf> <audOn> <aud|-> <iss|-> <sub|->
 v <now> K<static> E<id,..> J-|J<hexkid>=<id>;.. A<hexalg> N|S<hexkid> B|G<id,..> PB|PJ|PN|PO <hexname>=<val> ...
                                                 -> ok <ver> <exp> | err <label>
+   (J: the served JWKS document in order, `~=<id>` = an entry without kid; the store content is `storeOfDocument`)
 life <exp> <nowNs>                              -> some <ns> | none | panic
+bearer <hex of the Authorization header value>  -> some <hex token> | none
 uuid <hex> / pssid1 <hex>                       -> true | false
 ```
 claim values: `n` null, `t`/`f` bool, `u<dec>` u64, `i` negative integer, `d<dec>` float that rounds to that
@@ -73,10 +75,10 @@ def parseJwks (s : String) : Option (Option (List (String × KeyId))) :=
     ((s.splitOn ";").mapM (fun (e : String) =>
       match e.splitOn "=" with
       | [k, v] => do
-        let k ← strOfHex k
+        let k ← (if k == "~" then some none else (strOfHex k).map some)
         let v ← v.toNat?
         pure (k, v)
-      | _ => none)).map some
+      | _ => none)).map (fun doc => some (storeOfDocument doc))
 
 def parsePayload (kind : String) (claims : List String) : Option Payload :=
   match kind, claims with
@@ -128,6 +130,13 @@ def step (st : Unit) : List String → Unit × String
       | .past => (st, "none")
       | .panic => (st, "panic")
     | _, _ => (st, "bad-op")
+  | ["bearer", h] =>
+    match strOfHex h with
+    | some v =>
+      match extractBearer v.toList with
+      | some t => (st, "some " ++ toHex (String.ofList t).toUTF8.toList)
+      | none => (st, "none")
+    | none => (st, "bad-op")
   | ["uuid", h] =>
     match strOfHex h with
     | some s => (st, toString (uuidOk s))
